@@ -10,8 +10,8 @@ CONSTANTS Kinds = {"plain", "mixed", "enc", "root"}
           CoreLen = 0
           CoreT = 0
           CoreServers = {}
-          Slice = 8
+          Slice = 16
           Seed = 1
-          DesignAll = TRUE
+          DesignAll = FALSE
 INVARIANTS DesignOK Emit
 CHECK_DEADLOCK FALSE
